@@ -31,6 +31,10 @@ def _tr(node, **kw) -> Rat:
 
 def check_d1_d2(ctx) -> None:
     f = ctx.repo.method('Reservoir', 'Calculate', 'geophires_x/Reservoir.py')
+    # read on the canonical form: locals bound once to an attribute path (`gradients = self.gradient.value`) are that path
+    import dataclasses
+    from gxstat.inline import canonical_function, inline_block_locals
+    f = dataclasses.replace(f, node=canonical_function(f.node, unnest=False))
     rel = f.module.rel
     top = list(f.node.body)
     ctx.local_anchor(f, 'maxdepth', 'temperatureindex', 'intersecttemperature', 'totaldepth')
@@ -68,7 +72,7 @@ def check_d1_d2(ctx) -> None:
         return None
     tr = [s for s in top if isinstance(s, ast.Assign) and norm(s.targets[0]) == 'self.Trock.value']
     ctx.require(len(tr) == 1, 'Reservoir.Calculate: Trock definition not found')
-    v = _tr(tr[0].value, atom_of=at)
+    v = _tr(inline_block_locals(tr[0].value, tr[0], keep=('temperatureindex', 'intersecttemperature', 'totaldepth', 'maxdepth')), atom_of=at)
     idx = 'temperatureindex'
     want = a(f'intersecttemperature[{idx}]') + a(f'self.gradient.value[{idx}]') * (a('self.depth.value') - a(f'totaldepth[{idx}]'))
     ctx.check(v.equals(want), 'D2', 'Reservoir.Calculate/Trock', f'{rel}:{tr[0].lineno}',
@@ -105,6 +109,9 @@ def check_d1_d2(ctx) -> None:
 def check_maxdepth(ctx, f, rule: str) -> None:
     """Depth at which Tmax is reached: thicknesses of the segments above + headroom over the last interface divided by the
     gradient of the segment in which Tmax is reached (one consistent segment index)."""
+    import dataclasses
+    from gxstat.inline import canonical_function
+    f = dataclasses.replace(f, node=canonical_function(f.node, unnest=False))
     rel = f.module.rel
     a = Rat.atom
 
@@ -113,7 +120,9 @@ def check_maxdepth(ctx, f, rule: str) -> None:
             return f'{norm(n.value)}[{norm(n.slice)}]'
         return None
     cands = [s for s in ast.walk(f.node) if isinstance(s, ast.Assign) and norm(s.targets[0]) == 'maxdepth' and 'self.Tmax.value' in norm(s.value)]
-    ctx.floor(rule, len(cands), 3, 'maxdepth definitions')
+    ctx.floor(rule, len(cands), 2, 'maxdepth definitions')
+    ctx.require(any('layerindex' in norm(s.value) for s in cands) and any('layerindex' not in norm(s.value) for s in cands),
+                'Reservoir.Calculate: expected a first-segment and a multi-segment definition of maxdepth (idiom changed)')
     for s in cands:
         v = _tr(s.value, atom_of=at)
         if 'layerindex' in norm(s.value):
@@ -132,8 +141,9 @@ def check_maxdepth(ctx, f, rule: str) -> None:
     for s in sums:
         v = _tr(s.value, atom_of=at)
         loops = [p_ for p_ in ast.walk(f.node) if isinstance(p_, ast.For) and any(x is s for x in ast.walk(p_))]
-        ok = bool(loops) and v.equals(a('maxdepth') + a(f'self.layerthickness.value[{norm(loops[-1].target)}]')) and \
-            [norm(x) for x in loops[-1].iter.args] == ['0', 'layerindex']
+        rargs = [norm(x) for x in loops[-1].iter.args] if loops and isinstance(loops[-1].iter, ast.Call) and dotted_name(loops[-1].iter.func) == 'range' else []
+        rargs = ['0'] + rargs if len(rargs) == 1 else rargs[:2] if len(rargs) == 3 and rargs[2] == '1' else rargs
+        ok = bool(loops) and v.equals(a('maxdepth') + a(f'self.layerthickness.value[{norm(loops[-1].target)}]')) and rargs == ['0', 'layerindex']
         ctx.check(ok, rule, 'Reservoir.Calculate/maxdepth/segments-above', f'{rel}:{s.lineno}',
                   f'`{norm(s)[:80]}` over range({", ".join(norm(x) for x in loops[-1].iter.args) if loops else "?"}): the segments above the one in '
                   f'which Tmax is reached are [0, layerindex)')
